@@ -173,8 +173,9 @@ type genv struct {
 	client    *http.Client
 
 	rejected []hs.Blob // a few rejected (ref, bytes) with supported hashes, for the closing battery
-	calls    int64     // calls into perkeep code
-	added    int64     // accepted uploads that added a blob (new store states)
+	nrun     int
+	calls    int64 // calls into perkeep code
+	added    int64 // accepted uploads that added a blob (new store states)
 }
 
 var kindRe = regexp.MustCompile(`^[a-z]+[0-9]*`)
